@@ -389,6 +389,12 @@ impl EntryBoundAlignedBuffer {
         let size = size.div_ceil(entry_bound_size) * entry_bound_size;
         let layout = Layout::from_size_align(size, align_of::<EntryBound>()).unwrap();
         let ptr = unsafe { alloc(layout) };
+        #[cfg(grenad_verif)]
+        crate::verif::trace(crate::verif::AllocEvent::Alloc {
+            size: layout.size(),
+            align: layout.align(),
+            addr: ptr as usize,
+        });
         let Some(ptr) = NonNull::new(ptr) else {
             panic!(
                 "the allocator is unable to allocate that much memory ({} bytes requested)",
@@ -417,6 +423,12 @@ impl ops::DerefMut for EntryBoundAlignedBuffer {
 impl Drop for EntryBoundAlignedBuffer {
     fn drop(&mut self) {
         let layout = Layout::from_size_align(self.len, align_of::<EntryBound>()).unwrap();
+        #[cfg(grenad_verif)]
+        crate::verif::trace(crate::verif::AllocEvent::Dealloc {
+            size: layout.size(),
+            align: layout.align(),
+            addr: self.data.as_ptr() as usize,
+        });
 
         unsafe { dealloc(self.data.as_ptr(), layout) }
     }
@@ -676,6 +688,27 @@ where
             .collect();
 
         result.map(|readers| (readers, merge))
+    }
+}
+
+#[cfg(grenad_verif)]
+impl<MF, CC: ChunkCreator> Sorter<MF, CC> {
+    /// Verification hook: replaces the configured budget and the (still empty)
+    /// in-memory buffer, bypassing the minimum clamp and the initial size constant.
+    pub fn verif_set_budget(&mut self, dump_threshold: usize, initial_capacity: usize) {
+        assert_eq!(self.entries.bounds_count, 0);
+        self.dump_threshold = dump_threshold;
+        self.entries = Entries::with_capacity(initial_capacity);
+    }
+
+    /// Verification hook: `(buffer len, entries len, bounds count, chunks count)`.
+    pub fn verif_fingerprint(&self) -> (usize, usize, usize, usize) {
+        (
+            self.entries.buffer.len(),
+            self.entries.entries_len,
+            self.entries.bounds_count,
+            self.chunks.len(),
+        )
     }
 }
 
